@@ -65,9 +65,11 @@ def result_tag(t):
 
 def gen_sigs(ctx):
     """type-check one definition per (operator|method, class...) with the compiler of the working tree"""
-    h = Harness(ctx, "sigs")
-    lines, keys = [], []
+    from concurrent.futures import ThreadPoolExecutor
+    h = Harness(ctx, "sigs", env={"ERG_PATH": os.path.join(REPO, "crates", "erg_compiler")})
+    chunks = []
     for i, (ta, a) in enumerate(ERG_CLASSES):
+        lines, keys = [], []
         for j, (tb, b) in enumerate(ERG_CLASSES):
             for o, sym in enumerate(BINOPS):
                 nm = "b_%d_%d_%d" % (o, i, j)
@@ -84,10 +86,33 @@ def gen_sigs(ctx):
             else:
                 lines.append("%s(a: %s) = %s" % (nm, a, tmpl.format(a="a")))
             keys.append(("meth", m, ta, None, nm))
-    src = "\n".join(lines) + "\n"
-    out = h.run([[0, src, [k[4] for k in keys]]])[0]
-    if not isinstance(out, list) or len(out) != len(keys) + 1 or out[0] == -999:
-        raise TieBroken("ergv-sigs could not type-check the signature probe module: %r" % (out[:3],))
+        chunks.append(("\n".join(lines) + "\n", keys))
+    # the answer is a function of the compiler binary, the declaration files it loads and the probe text: cache on those
+    hh = hashlib.sha1()
+    hh.update(open(h.bin, "rb").read())
+    for root, dirs, files in sorted(os.walk(os.path.join(REPO, "crates", "erg_compiler", "lib"))):
+        dirs.sort()
+        for f in sorted(files):
+            if f.endswith(".er"):
+                hh.update(f.encode())
+                hh.update(open(os.path.join(root, f), "rb").read())
+    for src, _ in chunks:
+        hh.update(src.encode())
+    cache = os.path.join(CACHE, "c26_sigs_%s.json" % hh.hexdigest()[:16])
+    if os.path.exists(cache):
+        outs = json.load(open(cache))
+    else:
+        t0 = time.time()
+        with ThreadPoolExecutor(max_workers=len(chunks)) as ex:
+            outs = list(ex.map(lambda ck: h.run([[0, ck[0], [k[4] for k in ck[1]]]])[0], chunks))
+        ctx.log("signature probe: %d definitions type-checked in %.1fs" % (sum(len(k) for _, k in chunks), time.time() - t0))
+        json.dump(outs, open(cache, "w"))
+    keys, out = [], [0]
+    for (src, ks), o in zip(chunks, outs):
+        if not isinstance(o, list) or len(o) != len(ks) + 1 or o[0] == -999:
+            raise TieBroken("ergv-sigs could not type-check the signature probe module: %r" % (o[:3] if isinstance(o, list) else o,))
+        keys += ks
+        out += o[1:]
     table = {}
     for k, t in zip(keys, out[1:]):
         table[k[:4]] = (result_tag(sx_str(t)) if t else -1, sx_str(t) if t else "")
@@ -344,3 +369,257 @@ def run_driver(ctx, ver, cases, core=None):
         raise TieBroken("c26_driver under python %s failed on %s (rc=%s, %d/%d answers): %s" % (
             ver, core or CORE, p.returncode, len(lines), len(cases), p.stderr[-1500:]))
     return [sx_load(l.split(" ; ")[0]) for l in lines]
+
+
+# ------------------------------------------------------------------------------------------------ check
+def check_coherence(bat):
+    """the one assumption the theorems make about the float oracle (Props_C26: orc_coherent): int ** float converts the
+    int first.  Returns a description of a counterexample or None."""
+    ent = {sx_dump(e[:3]): e[3] for e in bat}
+    for e in bat:
+        if e[0] == 6 and e[1][0] == 0 and e[2][0] == 1:
+            tf = ent.get(sx_dump([20, e[1], [2]]))
+            if tf is None:
+                continue
+            exp = ent.get(sx_dump([6, [1, tf[1]], e[2]])) if tf[0] == 0 else tf
+            if exp is not None and exp != e[3]:
+                return "int ** float: %r but float(int) ** float: %r" % (e[3], exp)
+    return None
+
+
+class Batch:
+    """implementation answers (one interpreter), model answers, Spec reference, judge verdicts for a list of cases"""
+
+    def __init__(self, ctx, model, ver, cases, fx=None):
+        self.ver = ver
+        self.cases = cases
+        self.impl = run_driver(ctx, ver, cases)
+        fx = fx or CUR_FX
+        lines = [[0, fx, c, a[4]] for c, a in zip(cases, self.impl)]
+        lines += [[1, c, a[4]] for c, a in zip(cases, self.impl)]
+        lines += [[2, c, a[0][:2], a[1], a[2], a[4]] for c, a in zip(cases, self.impl)]
+        out = model.run(lines)
+        n = len(cases)
+        self.model, self.spec, self.judge = out[:n], out[n:2 * n], out[2 * n:]
+
+    def rows(self):
+        for i, c in enumerate(self.cases):
+            a = self.impl[i]
+            iout = a[0][:2] if a[0] and a[0][0] == 1 else a[0]
+            m = self.model[i]
+            modelled = m[0] != [2]
+            corr = None
+            if modelled and (m[0] != iout or m[1] != a[1]):
+                corr = {"impl": show_outcome(a[0]), "impl_receiver_after": show_val(a[1]),
+                        "model": show_outcome(m[0]), "model_receiver_after": show_val(m[1])}
+            spec_bad = None
+            if c[0] in (0, 1) and self.spec[i] != [2] and a[3]:
+                rr = a[3][:2] if a[3][0] == 1 else a[3]
+                if self.spec[i] != rr:
+                    spec_bad = {"python": show_outcome(a[3]), "spec": show_outcome(self.spec[i])}
+            j = self.judge[i]
+            failed = [x for x in j[0] if x != 5]
+            yield i, c, a, iout, modelled, corr, spec_bad, failed, (5 in j[0]), j[1], check_coherence(a[4])
+
+
+CLAUSE = {1: "value differs from the Python built-in on the unwrapped operands",
+          2: "result is not an instance of the declared class (after the call-site re-wrap)",
+          3: "a negative Nat exists after the operation", 4: "a method of an immutable class changed its receiver"}
+KNOWN_CLASS = {1: "K_mut", 2: "K_pow"}
+
+
+def small_scope(table):
+    """every operator on every pair of classes with a few small values each (thorough tier)"""
+    vals = {0: [0, 1, 3], 1: [-2, 0, 5], 2: [0, 1], 3: [-1, 2], 4: [1], 5: [f2b(-1.5), f2b(2.0)], 6: [f2b(0.5)],
+            7: [[], [97, 98]], 8: [[98]], 9: [[], [[0, 1], [1, -1]]], 10: [[[3, 2]]]}
+    out = []
+    for ta in range(16):
+        for tb in range(16):
+            for o in range(13):
+                for pa in (vals.get(ta) or [None])[:2]:
+                    for pb in (vals.get(tb) or [None])[:2]:
+                        def mk(t, p):
+                            if t in vals:
+                                return [t, p]
+                            inner = {11: 0, 12: 1, 13: 2, 14: 5, 15: 7}[t]
+                            return [t, [inner, vals[inner][-1]]]
+                        out.append([0, o, mk(ta, pa), mk(tb, pb)])
+    return out
+
+
+def shrink_case(c, still_fails):
+    """make the integers of a failing case small"""
+    import copy
+
+    def ints(v, path, acc):
+        if v[0] in (0, 1, 2, 3, 4):
+            acc.append(path)
+        elif v[0] in (11, 12, 13, 14, 15):
+            ints(v[1], path + [1], acc)
+        elif v[0] in (9, 10):
+            for i, e in enumerate(v[1]):
+                ints(e, path + [1, i], acc)
+    best = c
+    slots = {0: [2, 3], 1: [2], 2: [2], 3: [2]}[c[0]]
+    paths = []
+    for s in slots:
+        ints(c[s], [s], paths)
+    if c[0] == 2:
+        for i, a in enumerate(c[3]):
+            ints(a, [3, i], paths)
+    for p in paths:
+        node = best
+        for k in p:
+            node = node[k]
+        z = node[1]
+        for cand in [0, 1, -1, 2, -2, 3, -3, 5, -5, 10, -10]:
+            if abs(cand) >= abs(z) or (node[0] in (0, 2, 4) and cand < 0) or (node[0] in (2, 4) and cand > 1):
+                continue
+            t = copy.deepcopy(best)
+            n2 = t
+            for k in p:
+                n2 = n2[k]
+            n2[1] = cand
+            if still_fails(t):
+                best = t
+                break
+    return best
+
+
+def run(ctx):
+    from concurrent.futures import ThreadPoolExecutor
+    ctx.cov["rule"] = ("single operations on the real runtime classes: binary operators (+ - * / // % ** == != < <= > >=) on pairs "
+                       "of operands of classes Nat Int Bool Float Str List, their Mut variants and plain int/bool/float/str/list "
+                       "(60% class pairs the compiler accepts, rest mixed/arbitrary), unary - + abs, the modelled named methods, "
+                       "constructor calls (the compiler's re-wrap); values boundary-heavy (0, +-1, +-2^31, +-2^63, 2^100.., "
+                       "signed zeros, inf, nan, subnormals, empty/non-ASCII strings); every case under Python 3.7-3.11; "
+                       "non-trivial = distinct case that the model covers and that does not end in TypeError/AttributeError")
+    ctx.cov["trusted_base"] = ["Coq 8.16.1 kernel", "extraction (ExtrOcamlBasic only) + extract/driver.ml",
+                               "pylib/c26_driver.py (builds operands, encodes results, computes the built-in reference and the float oracle)",
+                               "harness/sigs (asks the live compiler for the type of `a op b`)",
+                               "float arithmetic is an uninterpreted oracle in the model (answers taken from the interpreter)"]
+    ctx.assumptions = ["operands are distinct objects (no `a op a` aliasing)",
+                       "float oracle coherence: int ** float = float(int) ** float (checked on every case that exercises it)",
+                       "declared class is judged modulo the constructor call codegen.rs (emit_expr/should_wrap) puts around every "
+                       "typed operator/call expression; `strict` instances are reported separately (known/C26.json K_plain)",
+                       "str % (formatting), list ordering, str()/int() of strings, a plain str/list left of a Mut operand are not modelled"]
+    table = gen_sigs(ctx)
+    proof = ctx.coq(["Runtime/Props_C26.v"])
+    model = ctx.model("Runtime")
+    cases = []
+    corpus = os.path.join(VERIF, "corpus", "C26")
+    if os.path.isdir(corpus):
+        for f in sorted(os.listdir(corpus)):
+            cases.append(json.load(open(os.path.join(corpus, f)))["case"])
+    known = ctx.known()
+    kw = [(k, k["witness"]["case"]) for k in known if isinstance(k.get("witness"), dict) and "case" in k["witness"]]
+    cases += [w for _, w in kw]
+    n = ctx.scale(2500, 60000)
+    for _ in range(n):
+        cases.append(gen_case(ctx.rng, table))
+    if ctx.thorough:
+        ex = small_scope(table)
+        ctx.cov["exhaustive_small_scope"] = "%d cases: every operator on every ordered pair of the 16 classes, 2x2 small values" % len(ex)
+        cases += ex
+    t0 = time.time()
+    with ThreadPoolExecutor(max_workers=len(INTERPRETERS)) as ex:
+        batches = list(ex.map(lambda v: Batch(ctx, model, v, cases), INTERPRETERS))
+    ctx.log("%d cases x %d interpreters run and judged in %.1fs" % (len(cases), len(INTERPRETERS), time.time() - t0))
+    n_corr = n_spec = n_coh = 0
+    first_corr = first_spec = None
+    fails = []          # (ver, case, failed clauses, impl row) outside the known classes
+    known_hits = {}
+    strict_n = 0
+    for b in batches:
+        for i, c, a, iout, modelled, corr, spec_bad, failed, nonstrict, kcls, coh in b.rows():
+            if b.ver == INTERPRETERS[-1]:
+                kind = ["binop", "unop", "method", "construct"][c[0]]
+                ctx.count(kind)
+                if c[0] == 0:
+                    ctx.count("op " + OP_NAMES[c[1]])
+                    ctx.count("left " + CLS_NAMES[c[2][0]])
+                    ctx.count("right " + CLS_NAMES[c[3][0]])
+                ctx.count("outcome " + ("value" if a[0][0] == 0 else EXC_NAMES.get(a[0][1], "?")))
+                if not modelled:
+                    ctx.count("not modelled")
+                nt = modelled and not (a[0][0] == 1 and a[0][1] in (2, 5))
+                ctx.case(c, nontrivial=nt, sample={"case": show_case(c), "result": show_outcome(a[0])})
+                if nonstrict:
+                    strict_n += 1
+            if corr:
+                n_corr += 1
+                first_corr = first_corr or {"python": b.ver, "case": c, "readable": show_case(c), "detail": corr}
+            if spec_bad:
+                n_spec += 1
+                first_spec = first_spec or {"python": b.ver, "case": c, "readable": show_case(c), "detail": spec_bad}
+            if coh:
+                n_coh += 1
+                first_spec = first_spec or {"python": b.ver, "case": c, "readable": show_case(c), "detail": coh}
+            if failed:
+                if kcls in KNOWN_CLASS and any(k.get("class") == KNOWN_CLASS[kcls] for k in known):
+                    known_hits[kcls] = known_hits.get(kcls, 0) + 1
+                else:
+                    fails.append((b.ver, c, failed, a))
+    ctx.cov["correspondence_disagreements"] = n_corr
+    ctx.cov["judge_failures_in_known_classes"] = {KNOWN_CLASS[k]: v for k, v in known_hits.items()}
+    ctx.cov["raw_results_not_strict_instances"] = strict_n
+    # ---- known findings: report those whose witness still reproduces
+    wb = {sx_dump(c): (a, j) for c, a, j in zip(batches[-1].cases, batches[-1].impl, batches[-1].judge)}
+    for k, w in kw:
+        a, j = wb[sx_dump(w)]
+        bad = [x for x in j[0] if x in k.get("clauses", [1, 2, 3, 4, 5])]
+        if bad:
+            ctx.known_finding(k)
+        else:
+            ctx.notes.append("stale-known-finding %s: witness %s no longer fails" % (k.get("id"), show_case(w)))
+            print("NOTE stale-known-finding property=C26 %s" % k.get("id"))
+    # ---- verdict
+    reported = set()
+    for ver, c, failed, a in fails:
+        key = (c[0], c[1], c[2][0], c[3][0] if c[0] == 0 else -1, tuple(failed))
+        if key in reported or len(reported) >= 4:
+            continue
+        reported.add(key)
+
+        def still(t, ver=ver, failed=failed):
+            bb = Batch(ctx, model, ver, [t])
+            r = list(bb.rows())[0]
+            return bool(r[7]) and set(r[7]) & set(failed) and r[9] not in KNOWN_CLASS
+        small = shrink_case(c, still)
+        bb = Batch(ctx, model, ver, [small])
+        r = list(bb.rows())[0]
+        ctx.violation("failing-input",
+                      "%s -> %s under Python %s: %s" % (show_case(small), show_outcome(r[2][0]), ver,
+                                                         "; ".join(CLAUSE[x] for x in r[7])),
+                      case={"case": small, "readable": show_case(small), "python": ver},
+                      impl={"outcome": show_outcome(r[2][0]), "receiver_after": show_val(r[2][1]),
+                            "python_builtin_on_unwrapped": show_outcome(r[2][3]) if r[2][3] else None},
+                      model={"outcome": show_outcome(bb.model[0][0])},
+                      judge={"failed_clauses": {str(x): CLAUSE[x] for x in r[7]}})
+    if not fails and (n_corr or n_spec or n_coh or not proof.ok):
+        what = []
+        if not proof.ok:
+            what.append("theorem(s) no longer check: " + proof.summary())
+        if n_corr:
+            what.append("%d (case, interpreter) pairs on which model and runtime modules differ" % n_corr)
+        if n_spec or n_coh:
+            what.append("%d cases on which Spec.v's Python semantics / oracle assumption differ from the interpreter" % (n_spec + n_coh))
+        ctx.violation("broken-correspondence" if (n_corr or n_spec or n_coh) else "broken-theorem", "; ".join(what),
+                      case=first_corr or first_spec, theorem=proof.summary() or None, no_input=True)
+
+
+def replay(ctx, path):
+    r = json.load(open(path))
+    model = ctx.model("Runtime")
+    c = r["case"]["case"] if isinstance(r.get("case"), dict) and "case" in r["case"] else r["case"]
+    vers = [r["case"].get("python")] if isinstance(r.get("case"), dict) and r["case"].get("python") else INTERPRETERS
+    for ver in vers:
+        b = Batch(ctx, model, ver, [c])
+        i, c, a, iout, modelled, corr, spec_bad, failed, nonstrict, kcls, coh = list(b.rows())[0]
+        print("python %s: %s -> %s ; receiver afterwards %s ; built-in on unwrapped operands: %s" % (
+            ver, show_case(c), show_outcome(a[0]), show_val(a[1]), show_outcome(a[3]) if a[3] else "-"))
+        print("  model:", show_outcome(b.model[0][0]), "| correspondence:", corr or "agrees")
+        print("  judge:", {x: CLAUSE[x] for x in failed} or "property holds", "| known class:", KNOWN_CLASS.get(kcls, "-"))
+        if failed and kcls not in KNOWN_CLASS:
+            ctx.violation("failing-input", "; ".join(CLAUSE[x] for x in failed), case=r["case"],
+                          impl={"outcome": show_outcome(a[0])}, judge={"failed_clauses": failed})
